@@ -161,7 +161,21 @@ def _pq_at(a, x, dps):
         return 1 - Q, Q, "Q"
 
 
+_PQ_CACHE = {}
+
+
 def pq(a, x):
+    """cached front end of _pq (the four incomplete-gamma functions share one evaluation per point)."""
+    k = (a, x)
+    r = _PQ_CACHE.get(k)
+    if r is None:
+        if len(_PQ_CACHE) > 20000:
+            _PQ_CACHE.clear()
+        r = _PQ_CACHE[k] = _pq(a, x)
+    return r
+
+
+def _pq(a, x):
     """regularised P(a,x), Q(a,x) for a > 0, x >= 0, both with >= DPS correct digits (or exactly 0 below 1e-700)."""
     if x == 0:
         return mpf(0), mpf(1)
@@ -569,8 +583,8 @@ def region(fn, ns, xs, refval=None):
     """(branch label, argument class) of an evaluation; xs are Python floats.  Labels only name the cell a
     failure is filed under, they never take part in a verdict."""
     br, ac = region0(fn, ns, xs)
-    if fn == "LogBesselI" and refval is not None and refval is not UNDEF and mp.isfinite(refval) and abs(refval) < 2.0 ** -10:
-        ac += ",|log I|<2^-10"   # I ~ 1: the logarithm is computed to absolute, not relative, accuracy
+    if fn == "LogBesselI" and refval is not None and refval is not UNDEF and mp.isfinite(refval) and abs(refval) < 2.0 ** -4:
+        ac += ",|log I|<2^-4"   # I ~ 1: the logarithm is computed to absolute, not relative, accuracy
     return br, ac
 
 
